@@ -196,6 +196,11 @@ static int hashmap_put(m_map_t *m, const char *key, void *value) {
             return -EPERM;
         }
     }  else {
+        /* New entry: only now duplicate the key, if requested; the copy belongs to the entry */
+        if (m->flags & M_MAP_KEY_DUP) {
+            key = mem_strdup(key);
+            M_ALLOC_ASSERT(key);
+        }
         entry->key = key;
         m->length++;
     }
@@ -346,7 +351,7 @@ _public_ int m_map_put(m_map_t *m, const char *key, void *value) {
     M_PARAM_ASSERT(value);
     
     /* Find a place to put our value */
-    return hashmap_put(m, m->flags & M_MAP_KEY_DUP ? mem_strdup(key) : key, value);
+    return hashmap_put(m, key, value);
 }
 
 /*
